@@ -37,7 +37,7 @@ NONDET_CALLS = re.compile(
     r'|std::env::(var|vars|var_os|vars_os|args|args_os|current_dir|temp_dir)'
     r'|std::(hash|collections::hash_map)::RandomState::new'
     r'|std::fs::read_dir)')
-INTERIOR = re.compile(r'(Cell<|RefCell<|Mutex<|RwLock<|Atomic[A-Z]|OnceCell<|OnceLock<|LazyLock<|LazyCell<|Lazy<|LocalKey<|UnsafeCell<)')
+INTERIOR = re.compile(r'(Cell<|RefCell<|Mutex<|RwLock<|Atomic[A-Z<]|OnceCell<|OnceLock<|LazyLock<|LazyCell<|Lazy<|LocalKey<|UnsafeCell<)')
 PIPELINE_CRATES = ('oal_model', 'oal_syntax', 'oal_compiler', 'oal_openapi')
 
 
@@ -219,7 +219,7 @@ def r3_no_globals(c, facts):
             continue
         for st in d['statics']:
             n += 1
-            if st['mutable'] or INTERIOR.search(st['ty']):
+            if st['mutable'] or not st.get('freeze', True) or INTERIOR.search(st['ty']):
                 c.bad(R, '%s::%s' % (d['crate'], st['name']),
                       'static %s::%s : %s carries state across compilations in one process' % (d['crate'], st['name'], st['ty']))
             else:
